@@ -44,7 +44,7 @@ Qed.
 Theorem C16_rejected_leaves_unfitted :
   (forall steps, validate_first steps = true -> fst (run steps []) = false -> snd (run steps []) = []) /\
   (forall attrs k, run (fit_validate_first attrs k) [] =
-     if params_ok k && x_ok k && groups_ok k && cross_ok k && affinity_ok k then (true, rev attrs) else (false, [])).
+     if params_ok k && x_ok k && samples_ok k && groups_ok k && cross_ok k && affinity_ok k then (true, rev attrs) else (false, [])).
 Proof. split; [exact (fun s => validate_first_unfitted s [])|exact fit_validate_first_outcome]. Qed.
 
 (* the order of checks and writes of the code as it is (Validation.fit_base / fit_kauri, tied to the code by the
@@ -52,21 +52,21 @@ Proof. split; [exact (fun s => validate_first_unfitted s [])|exact fit_validate_
    (feature_mask length, 2*min_samples_leaf <= min_samples_split, Kauri's kernel) leaves n_features_in_ only.
    Partial: it does not cover the rejections of the next statement. *)
 Theorem C16_asis_rejection_partial :
-  (forall w k, params_ok k && x_ok k = false -> run (fit_base w k) [] = (false, [])) /\
-  (forall w k, params_ok k = true -> x_ok k = true -> cross_ok k = false -> run (fit_base w k) [] = (false, ["n_features_in_"])) /\
+  (forall w k, params_ok k && x_ok k && samples_ok k = false -> run (fit_base w k) [] = (false, [])) /\
+  (forall w k, params_ok k = true -> x_ok k = true -> samples_ok k = true -> cross_ok k = false -> run (fit_base w k) [] = (false, ["n_features_in_"])) /\
   (forall k, fst (run (fit_kauri k) []) = false -> incl (snd (run (fit_kauri k) [])) ["n_features_in_"]).
 Proof. exact (conj fit_base_early_rejection (conj fit_base_cross_rejection fit_kauri_rejection)). Qed.
 
 (* ... and the as-is order is not "validate first": rejected fits that leave fitted attributes behind
-   (affinity rejected after the weights exist; sparse models store groups_ before validating; KernelRIM stores the
-   data and its kernel before validating) *)
+   (affinity rejected after the weights exist; sparse models store groups_ before validating the hyper-parameters and
+   the number of samples; KernelRIM stores the data and its kernel before validating; bad_affinity / bad_params /
+   bad_samples are the check records with exactly that check failing) *)
 Theorem C16_asis_validate_first_refuted :
-  run (fit_base ["W_"; "b_"] {| params_ok := true; x_ok := true; groups_ok := true; cross_ok := true; affinity_ok := false |}) []
-    = (false, ["optimiser_"; "b_"; "W_"; "n_features_in_"]) /\
-  run (fit_sparse ["W_"; "b_"] {| params_ok := false; x_ok := true; groups_ok := true; cross_ok := true; affinity_ok := true |}) []
-    = (false, ["groups_"; "n_features_in_"]) /\
-  run (fit_kernelrim {| params_ok := false; x_ok := true; groups_ok := true; cross_ok := true; affinity_ok := true |}) []
-    = (false, ["training_kernel_"; "input_data_"]).
+  run (fit_base ["W_"; "b_"] bad_affinity) [] = (false, ["optimiser_"; "b_"; "W_"; "n_features_in_"]) /\
+  run (fit_sparse ["W_"; "b_"] bad_params) [] = (false, ["groups_"; "n_features_in_"]) /\
+  run (fit_sparse ["W_"; "b_"] bad_samples) [] = (false, ["groups_"; "n_features_in_"]) /\
+  run (fit_kernelrim bad_params) [] = (false, ["training_kernel_"; "input_data_"]) /\
+  run (fit_kernelrim bad_samples) [] = (false, ["training_kernel_"; "input_data_"]).
 Proof. exact fit_asis_leaves_attributes. Qed.
 
 (* cross-parameter rules and the shape of acceptable training data *)
